@@ -11,7 +11,7 @@ META = {
                  'harness, every condition wait is a yield point where a nondeterministically chosen set of not-yet-started agents runs; schedule choices, spurious wake-ups, '
                  'time-outs, addresses, cell contents, expected values and notify counts are solver variables; ghost counters state the wait/notify contract. Plus translation '
                  'validation of the emitted wait/notify calls (effective address = operand + static offset)',
-    'functions_encoded': ['futex/futex.c: wasmMemoryAtomicWait, wasmMemoryAtomicNotify, waitFree', 'futex/list.c: listPrepend, listRemove', 'futex/map.c: mapInitialize, mapGet, mapInsert, mapRemove',
+    'functions_encoded': ['futex/futex.c: wasmMemoryAtomicWait, wasmMemoryAtomicNotify, waitFree', 'futex/list.c: listPrepend, listRemove (also as one-step kernels from arbitrary valid lists: head/middle/tail removal)', 'futex/map.c: mapInitialize, mapGet, mapInsert, mapRemove (also as a kernel: 3 symbolic keys colliding in 2 buckets)',
                           'w2c2_base.h: WASM_MUTEX_*/WASM_COND_* macros, wasmCondRelativeWait, i32/i64_atomic_load', 'C emitted by w2c2 c.c: wasmCWriteMemoryAtomicWaitExpr/NotifyExpr'],
     'bounds': {'agents': '2-3 per scenario: W+N, W(timed)+N, W+W+N, W+N+N, W(addr 0)+W(addr 16, same bucket)+N, W(timed)+W+N', 'schedules': 'all properly nested (LIFO) schedules: an agent may start inside any '
                'condition wait of another; start order both ways', 'spurious wake-ups': '<=1 per waiter', 'buckets': '4 via the W2C2_VERIF_FUTEX_BUCKET_COUNT hook (addresses 0 and 16 collide); one scenario with the real 1024',
@@ -44,6 +44,11 @@ def make_jobs(ctx):
     for (sc, na, rec, desc, wit) in scen:
         jobs.append(futex_job(sc, na, rec, desc, wit, timeout=300 if ctx.quick else 1200))
     jobs.append(futex_job(0, 2, 2, 'W+N with the unhooked 1024 buckets', ['end', 'woken'], buckets=0, timeout=300 if ctx.quick else 1200))
+    src = os.path.join(H, 'kernels', 'c17_listmap.c')
+    incs = [os.path.join(REPO, 'futex'), os.path.join(REPO, 'w2c2')]
+    for h in ('list_remove', 'list_prepend', 'map'):
+        jobs.append(Job('listmap_' + h, [src], entry='harness_' + h, incs=incs, unwind=6, flags=['--no-malloc-may-fail'], backends=['sat'], witnesses=['end'],
+                        replay=dict(sources=[src], incs=incs, defs=['-Dharness=harness_' + h], asan=True), sample={'kernel': h, 'state': 'arbitrary valid list of <=3 nodes / 3 symbolic keys in 2 buckets'}))
     for (name, m, script, hk) in F.futex_family():
         wasmvalid.validate(m)
         jobs.append(e2_job(ctx, name, m, script, backends=['sat', 'kissat'], unwind=14, harness_kw=hk, page=64,
